@@ -296,6 +296,10 @@ def rule_r3(repo, run):
             for kw in [k for c in ast.walk(lp) if isinstance(c, ast.Call) for k in c.keywords]:
                 if kw.arg == "function_suffix" and pat.match(pat.parse("'_{}d'.format(%s)" % lp.target.id)[1], kw.value, {}):
                     ok = True
+    rng = pat.find(ar, "for MV_R in range(MV_O.F_assumed_rank_min, MV_O.F_assumed_rank_max + 1):\n    ...")
+    run.check(R, "generate.GenFunctions.process_assumed_rank:ranks", len(rng) == 1,
+              "one variant per rank from F_assumed_rank_min to F_assumed_rank_max inclusive (the documented maximum "
+              "rank): an exclusive upper bound drops the specific for the highest rank from the generic", gm.loc(ar))
     run.check(R, "generate.GenFunctions.process_assumed_rank:suffix", ok,
               "assumed-rank variants must be suffixed with the loop's rank", gm.loc(ar))
     # default arguments: suffix indexed by the running count of defaults
